@@ -3,4 +3,5 @@
 pub mod core;
 pub mod fdinfo;
 pub mod probe;
+pub mod sched;
 pub mod trace;
